@@ -22,6 +22,7 @@ import json
 import multiprocessing
 import os
 import pickle
+import re
 import shutil
 import signal
 import sys
@@ -30,7 +31,21 @@ import traceback
 
 VERIF = os.path.dirname(os.path.dirname(os.path.abspath(__file__)))
 NWORKERS = int(os.environ.get("VERIF_WORKERS", "16"))
-MAX_VIOL_PER_WORKER = 40
+MAX_VIOL_PER_WORKER = 400
+MAX_VIOL_PER_CLASS = 3
+
+
+def message_class(message):
+    """failure class of a message: bracketed/quoted content and numbers blanked"""
+    m = message
+    for _ in range(6):
+        m2 = re.sub(r"\[[^\[\]]*\]|\([^()]*\)|\{[^{}]*\}|'[^']*'|\"[^\"]*\"", "..", m)
+        if m2 == m:
+            break
+        m = m2
+    m = re.sub(r"[-+]?[0-9][0-9.e+-]*", "#", m)
+    m = re.sub(r"\s+", " ", m)
+    return m[:110]
 # [(finding id, text, predicate(part, case))] set by run.py before exploring
 KNOWN = []
 
@@ -94,6 +109,7 @@ class Rec(object):
         self.last = None
         self.extra = collections.Counter()
         self.known = collections.Counter()
+        self.vclasses = collections.Counter()
 
     # one case was evaluated (and held, unless fail() was called for it)
     def ok(self, case=None, outcome="ok", nontrivial=True, calls=1):
@@ -117,7 +133,9 @@ class Rec(object):
                 self.known[(kid, what)] += 1
                 return
         self.nviol += 1
-        if len(self.violations) < MAX_VIOL_PER_WORKER:
+        k = message_class(message)
+        self.vclasses[k] += 1
+        if self.vclasses[k] <= MAX_VIOL_PER_CLASS and len(self.violations) < MAX_VIOL_PER_WORKER:
             self.violations.append(Violation(self.part, case, message))
 
     def count(self, key, n=1):
@@ -132,6 +150,7 @@ class Rec(object):
         self.nviol += o.nviol
         self.extra.update(o.extra)
         self.known.update(o.known)
+        self.vclasses.update(o.vclasses)
         if self.first is None:
             self.first = o.first
         if o.last is not None:
@@ -300,6 +319,7 @@ class Ctx(object):
             extra=dict(rec.extra), exhaustive=True,
         )
         part.known = rec.known
+        part.vclasses = rec.vclasses
         part.violations = rec.violations
         self._progress(part)
         return part
@@ -389,6 +409,7 @@ class Ctx(object):
             exhaustive=not capped,
         )
         part.known = total.known
+        part.vclasses = total.vclasses
         part.violations = total.violations
         self._progress(part)
         return part
@@ -460,6 +481,7 @@ class Ctx(object):
             extra=dict(rec.extra), exhaustive=rec.extra.get("capped_units", 0) == 0,
         )
         part.known = rec.known
+        part.vclasses = rec.vclasses
         part.violations = rec.violations
         self._progress(part)
         return part
